@@ -106,6 +106,11 @@ def extract():
     t = read(rel)
     expect("c07.mulint.sign_extend", rel, t, r"let new_len = x\.len\(\) \+ y\.len\(\);\s*let mut y = y\.clone\(\);\s*y\.resize\(new_len, y\[y\.len\(\) - 1\]\.clone\(\)\);")
     expect("c07.mulint.row", rel, t, r"x\.iter\(\)\.take\(new_len - i\)\.enumerate\(\)")
+    # the carry-append guard the invariant of `mul_value` depends on (accumulator has min(n+i+1, L) bits after bit i)
+    expect("c07.mulint.carry_guard", rel, t,
+           r"if result\.len\(\) < new_len \{\s*(?://[^\n]*\n\s*)*result\.push\(carry\);\s*\}\s*\}\s*\}\s*Ok\(result\)")
+    expect("c07.mulint.first_row", rel, t, r"if i == 0 \{\s*result = t;\s*\} else \{")
+    expect("c07.mulint.loop", rel, t, r"for \(i, yb\) in y\.into_iter\(\)\.enumerate\(\) \{")
     expect("c07.mulint.accumulate", rel, t,
            r"let add_y = BitDecomposed::new\(result\.clone\(\)\.into_iter\(\)\.skip\(i\)\);.*?&t,\s*&add_y,.*?result = BitDecomposed::new\(result\.into_iter\(\)\.take\(i\)\.chain\(add_result\.into_iter\(\)\)\);\s*if result\.len\(\) < new_len \{")
 
@@ -137,8 +142,64 @@ def extract():
         record("c07.conv.bits", rel, t, m, conv_bits)
     expect("c07.conv.mask_top_bits", rel, t, r"r\[BITS - 1\] = AdditiveShare::<Boolean, N>::ZERO;\s*r\[BITS - 2\] = AdditiveShare::<Boolean, N>::ZERO;")
     expect("c07.conv.clear_rs_top", rel, t, r"rs_with_higherorderbits\[BITS - 1\] = AdditiveShare::<Boolean, NC>::ZERO;")
+    # conv_value: operand order of the two additions, who learns y, and which component every helper outputs
+    expect("c07.conv.add_masks", rel, t,
+           r"integer_add::<_, TwoHundredFiftySixBitOpStep, NC>\(\s*ctx\.narrow\(&Step::IntegerAddBetweenMasks\),\s*record_id,\s*&sh_r,\s*&sh_s,\s*\)")
+    expect("c07.conv.add_x", rel, t,
+           r"let \(sh_y, _\) = integer_add::<_, TwoHundredFiftySixBitOpStep, NC>\(\s*ctx\.narrow\(&Step::IntegerAddMaskToX\),\s*record_id,\s*&sh_rs,\s*&input_shares,\s*\)")
+    expect("c07.conv.reveal_excludes_h3", rel, t,
+           r"validated_partial_reveal\(ctx\.narrow\(&Step::RevealY\), record_id, Role::H3, &sh_y\)\.await\?;")
+    expect("c07.conv.prss_len", rel, t, r"ctx\.prss\(\)\.generate_with\(record_id, BITS\);")
+    Z = r"<Boolean as Vectorizable<N>>::Array::ZERO_ARRAY"
+    L = r"r\.get\(i\)\.unwrap\(\)\.left_arr\(\)\.clone\(\)"
+    Rr = r"r\.get\(i\)\.unwrap\(\)\.right_arr\(\)\.clone\(\)"
+    def arm(role, r_l, r_r, s_l, s_r):
+        return (r"Role::" + role + r" => \{\s*for i in 0\.\.BITS \{\s*sh_r\.push\(AdditiveShare::new_arr\(\s*" + r_l + r",\s*" + r_r
+                + r",\s*\)\);\s*sh_s\.push\(AdditiveShare::new_arr\(\s*" + s_l + r",\s*" + s_r + r",\s*\)\);\s*\}\s*\}")
+    expect("c07.conv.masks.H1", rel, t, arm("H1", Z, Z, L, Z))
+    expect("c07.conv.masks.H2", rel, t, arm("H2", Z, Rr, Z, Z))
+    expect("c07.conv.masks.H3", rel, t, arm("H3", L, Z, Z, Rr))
+    expect("c07.conv.out.H1", rel, t,
+           r"Role::H1 => sh_s\s*\.chunks\(NP\)\s*\.zip\(y\.expect\(\"y was revealed to H1\"\)\.chunks\(NP\)\)\s*\.map\(\|\(sh_s, y\)\| \{\s*\(\s*sh_s\.iter\(\)\s*\.map\(\|sh_s\| Fp25519::from\(sh_s\.left\(\)\)\.neg\(\)\)\s*\.collect\(\),\s*y\.iter\(\)\.map\(\|&y\| Fp25519::from\(y\)\)\.collect\(\),")
+    expect("c07.conv.out.H2", rel, t,
+           r"Role::H2 => y\s*\.expect\(\"y was revealed to H1\"\)\s*\.chunks\(NP\)\s*\.zip\(sh_r\.chunks\(NP\)\)\s*\.map\(\|\(y, sh_r\)\| \{\s*\(\s*y\.iter\(\)\.map\(\|&y\| Fp25519::from\(y\)\)\.collect\(\),\s*sh_r\.iter\(\)\s*\.map\(\|sh_r\| Fp25519::from\(sh_r\.right\(\)\)\.neg\(\)\)\s*\.collect\(\),")
+    expect("c07.conv.out.H3", rel, t,
+           r"Role::H3 => sh_r\s*\.chunks\(NP\)\s*\.zip\(sh_s\.chunks\(NP\)\)\s*\.map\(\|\(sh_r, sh_s\)\| \{\s*\(\s*sh_r\.iter\(\)\s*\.map\(\|sh_r\| Fp25519::from\(sh_r\.left\(\)\)\.neg\(\)\)\s*\.collect\(\),\s*sh_s\.iter\(\)\s*\.map\(\|sh_s\| Fp25519::from\(sh_s\.right\(\)\)\.neg\(\)\)\s*\.collect\(\),")
+    rel2 = "protocol/basics/reveal.rs"
+    t2 = read(rel2)
+    expect("c07.reveal.semi_honest", rel2, t2,
+           r"ctx\.send_channel::<<V as Vectorizable<N>>::Array>\(ctx\.role\(\)\.peer\(Direction::Right\)\)\s*\.send\(record_id, left\).*?\.recv_channel\(ctx\.role\(\)\.peer\(Direction::Left\)\)\s*\.receive\(record_id\)\s*\.await\?;\s*Ok\(Some\(share \+ left \+ right\)\)")
+    expect("c07.reveal.malicious_compare", rel2, t2,
+           r"if share_from_left == share_from_right \{\s*Ok\(Some\(share_from_left \+ left \+ right\)\)\s*\} else \{\s*Err\(Error::MaliciousRevealFailed\)")
+    rel2 = "ff/ec_prime_field.rs"
+    t2 = read(rel2)
+    expect("c07.conv.from_ba256_reduces", rel2, t2,
+           r"impl From<BA256> for Fp25519 \{\s*fn from\(s: BA256\) -> Self \{.*?s\.serialize\(&mut buf\);\s*(?://[^\n]*\n\s*)*Fp25519::deserialize_infallible\(&buf\)")
     m = expect("c07.conv.max_input_bits", rel, t, r"debug_assert!\(input_shares\.iter\(\)\.count\(\) < \(BITS - (\d+)\)\);")
     conv_slack = int(m.group(1)) if m else 0
+
+    # ---- eval_dy_prf
+    rel = "protocol/ipa_prf/prf_eval.rs"
+    t = read(rel)
+    expect("c07.prf.y_is_x_plus_k", rel, t, r"let y = \(x \+ key\.expand\(\)\)\s*\.upgrade\(ctx\.narrow\(&Step::UpgradeY\), record_id\)")
+    expect("c07.prf.mask_from_prss", rel, t,
+           r"let r: AdditiveShare<Fp25519, N> = ctx\.narrow\(&Step::GenRandomMask\)\.prss\(\)\.generate\(record_id\);.*?let sh_gr = AdditiveShare::<RP25519, N>::from\(r\.clone\(\)\);")
+    expect("c07.prf.z_is_y_times_r", rel, t,
+           r"let y = y\s*\.multiply\(&r, ctx\.narrow\(&Step::MultMaskWithPRFInput\), record_id\)")
+    expect("c07.prf.reveals", rel, t,
+           r"reveal\(ctx\.narrow\(&Step::RevealR\), record_id, &sh_gr\),\s*reveal\(ctx\.narrow\(&Step::Revealz\), record_id, &y\),")
+    expect("c07.prf.output", rel, t,
+           r"let inv_z = crate::ff::ec_prime_field::batch_invert::<N>\(&z\);\s*Ok\(zip\(gr, inv_z\)\s*\.map\(\|\(gr, inv_z\)\| u64::from\(gr \* inv_z\)\)")
+    expect("c07.prf.point_share_from_scalar", rel, t, r"value\.transform\(RP25519::from\)")
+    rel = "ff/ec_prime_field.rs"
+    t = read(rel)
+    expect("c07.prf.batch_invert_is_dalek", rel, t, r"Scalar::batch_invert\(&mut inverted\);")
+    expect("c07.prf.invert_asserts_nonzero", rel, t, r"pub fn invert\(&self\) -> Fp25519 \{\s*assert_ne!\(\*self, Fp25519::ZERO\);")
+    rel = "ff/curve_points.rs"
+    t = read(rel)
+    expect("c07.prf.point_from_scalar", rel, t, r"impl From<Fp25519> for RP25519 \{\s*fn from\(s: Fp25519\) -> Self \{\s*Self\(\(RistrettoPoint::mul_base\(&s\.into\(\)\)\)\.into\(\)\)")
+    expect("c07.prf.point_to_u64", rel, t,
+           r"let hk = Hkdf::<Sha256>::new\(None, s\.0\.as_point\(\)\.compress\(\)\.as_bytes\(\)\);\s*let mut okm = <\$u_type>::MIN\.to_le_bytes\(\);.*?hk\.expand\(&\[\], &mut okm\)\.unwrap\(\);\s*<\$u_type>::from_le_bytes\(okm\)")
 
     # ---- vectorisation widths
     rel = "secret_sharing/vector/impls.rs"
